@@ -44,7 +44,7 @@ def compile_bundle(b, fmt="pil", fixed_text=None, root=None, keep=None):
         os.chdir(d)
         try:
             with quiet() as (so, se):
-                pc.compiler(b.entry, [], out, save, fixed, fmt == "pil", list(b.includes) if b.includes else None)
+                pc.compiler(b.entry, list(getattr(b, "args", [])), out, save, fixed, fmt == "pil", list(b.includes) if b.includes else None)
             res["ok"] = True
             res["stderr"] = se.getvalue()
             with open(out) as f:
